@@ -124,7 +124,79 @@ def bounded_bodies(ctx):
             needs_fn = "return" in body
             out.append({"id": h(["finally-override", pn, en]), "ident": ["finally-override", pn, en], "pre": skel.PRELUDE + skel.CTX_PRELUDE,
                         "iter": body, "needs_function": needs_fn})
+    # ... the same when the abandoned jump was leaving constructs that keep operand slots of their own (for-in / for-of iterators,
+    # switch discriminants, a catch block's exception, inner finally blocks) between its origin and the try statement
+    crossed = {"for-in": "for (var k in {a: 1, b: 2}) { %s }", "for-of": "for (var v of [1, 2]) { %s }", "switch": "switch (I % 2) { case 0: %s default: %s }",
+               "for-in>for-of": "for (var k in {a: 1}) { for (var v of [1]) { %s } }", "switch>for-in": "switch (1) { case 1: for (var k in {a: 1}) { %s } }",
+               "for-of>try-finally": "for (var v of [1]) { try { %s } finally { keep(v); } }", "for-in>catch": "for (var k in {a: 1}) { try { throw k; } catch (e) { %s } }",
+               "while>for-in": "var w = 0; while (w++ < 2) { for (var k in {a: 1}) { %s } }", "labelled-for-of": "L1: for (var v of [1]) { for (;;) { %s } }"}
+    jumps = {"return-value": "return [I];", "return-void": "return;", "return-call": "return keep(I) + keep(1);", "throw": "throw I;"}
+    outs = {"continue": "continue;", "cond-continue": "if (I >= 0) continue;", "break-do": None, "labelled-break": None}
+    for cn, cs in crossed.items():
+        for jn, js in jumps.items():
+            for on, os_ in outs.items():
+                inner = cs.replace("%s", js)
+                if on == "break-do":
+                    body = "do { try { %s } finally { break; } } while (0);" % inner
+                elif on == "labelled-break":
+                    body = "OUT: { try { %s } finally { break OUT; } }" % inner
+                else:
+                    body = "try { %s } finally { %s }" % (inner, os_)
+                out.append({"id": h(["finally-override-crossing", cn, jn, on]), "ident": ["finally-override-crossing", cn, jn + "/" + on], "pre": skel.PRELUDE + skel.CTX_PRELUDE,
+                            "iter": body, "needs_function": "return" in body})
+    # expression statements: every expression form, as a statement, as a discarded operand and as a condition.  (Forms this engine
+    # does not parse are skipped: the case is judged only when the program compiles.)
+    for en, e in EXPR_ZOO:
+        for fn, f in (("stmt", "%s;"), ("arg", "keep(%s);"), ("cond", "if (%s) { keep(1); }"), ("operand", "keep(1 + (%s));"), ("seq", "keep((%s, 1));")):
+            if ctx.quick and fn in ("operand", "seq") and hash_small([en, fn]) % 3:
+                continue
+            out.append({"id": h(["expr-zoo", en, fn]), "ident": ["expr-zoo", en, fn], "pre": skel.PRELUDE + skel.CTX_PRELUDE + ZOO_PRELUDE,
+                        "iter": "try { " + (f % e) + " } catch (E) { }", "may_not_parse": True})
+    # random operator trees (the value-semantics generator's grammar) as statements, and under delete / void / typeof
+    from vf import exprgen
+    rng = random.Random(ctx.seed * 7 + 1)
+    for i in range(150 if ctx.quick else 1500):
+        t = exprgen.random_tree(rng, rng.randint(1, 3))
+        src = exprgen.render(exprgen.toks(t))
+        w = rng.choice(["%s;", "delete (%s);", "void (%s);", "typeof (%s);", "keep(delete (%s));", "(%s) ? keep(1) : keep(2);", "[%s];", "({k: %s});"])
+        out.append({"id": h(["expr-rnd", src, w]), "ident": ["expr-rnd", w, src[:60]], "pre": skel.PRELUDE + skel.CTX_PRELUDE + "var arr = [1, 2, 3]; function f(x, y) { return x; } function F(x) { this.v = x; }\n" + exprgen.PRELUDE,
+                    "iter": "try { " + (w % src) + " } catch (E) { }", "may_not_parse": True})
     return out
+
+
+ZOO_PRELUDE = ("var o = {p: 1, q: {r: 2}, m: function (x) { return x; }, get g() { return 1; }, set g(v) { }}; var arr = [1, 2, 3]; var a = 1, b = 2, nul = null; "
+               "function f(x) { return x; } function F(x) { this.v = x; } function thrower() { throw 1; } var s = 'str';\n")
+EXPR_ZOO = [(e, e) for e in [
+    # delete in every operand form
+    "delete o.p", "delete o['p']", "delete o[f('p')]", "delete o.q.r", "delete f()", "delete f(1, 2)", "delete (1 + 2)", "delete 1", "delete 'x'", "delete [1, 2]",
+    "delete {a: 1}", "delete (a, b)", "delete this", "delete arr[0]", "delete arr[f(1)]", "delete o.m(1)", "delete new F(1)", "delete (a ? o : arr)", "delete !a",
+    "delete typeof a", "delete void 0", "delete delete o.p", "delete nul.x", "delete thrower()", "delete o[thrower()]", "delete (function () {})", "delete s.length",
+    "delete arr.length", "delete f", "delete nosuchname", "delete (o.p)", "delete ((o).p)", "delete `t${a}`", "delete /re/", "delete (a = 1)", "delete a++", "delete o?.p",
+    # void / typeof
+    "void 0", "void f()", "void o.p", "void (a, b)", "void thrower()", "typeof a", "typeof nosuchname", "typeof f()", "typeof o.p", "typeof thrower()", "typeof typeof a",
+    # sequence / conditional / logical
+    "a, b", "f(1), f(2), f(3)", "(a, thrower(), b)", "a ? b : s", "a ? f(1) : thrower()", "!a ? f(1) : f(2)", "a && f(1)", "a || f(1)", "nul && f(1)", "nul || f(1)",
+    "a && b && f(1)", "nul ?? f(1)", "a ?? thrower()", "a && thrower()", "(a || b) && (nul || f(0))", "a ? b ? 1 : 2 : 3",
+    # optional chaining
+    "o?.p", "nul?.p", "o?.m(1)", "nul?.m(1)", "o?.['p']", "nul?.[f(1)]", "o.q?.r", "nul?.q.r", "o.nosuch?.()", "nul?.p.q.r", "o?.m?.(1)", "f?.(1)",
+    # assignment forms
+    "a = 1", "a = b = 2", "o.p = 1", "o['p'] = f(1)", "arr[0] = 1", "arr[f(0)] = f(1)", "o.q.r = 2", "a += 1", "o.p += 1", "arr[0] += f(1)", "o[f('p')] *= 2",
+    "a &&= 1", "a ||= 1", "nul ??= null", "o.p &&= 2", "o.p ||= 2", "o.zz ??= 2", "arr[5] = thrower()", "o[thrower()] = 1", "nul.x = 1", "nul.x += 1", "o.g = 1", "o.g += 1",
+    "[a, b] = [b, a]", "({p: a} = o)", "[a, ...arr2] = arr", "({p: a, ...rest} = o)", "[a = 1, b = 2] = []", "[a, [b]] = [1, [2]]", "[a] = nul",
+    # update
+    "a++", "++a", "a--", "o.p++", "--o.p", "arr[0]++", "++arr[f(0)]", "o[f('p')]--", "o.q.r++", "nul.x++", "o.g++", "s.length++",
+    # calls / new / spread / templates
+    "f()", "f(1, 2, 3)", "o.m(1)", "o['m'](1)", "o.q.nosuch()", "new F(1)", "new F", "new F(1).v", "new o.m(1)", "f(...arr)", "f(1, ...arr, 2)", "new F(...arr)", "o.m(...arr)",
+    "[...arr]", "[1, ...arr, 2]", "[...s]", "[...nul]", "({...o})", "({...o, z: 1})", "`t`", "`t${a}`", "`${f(1)}${f(2)}`", "`${thrower()}`", "f`t${a}`", "(function () { return 1; })()",
+    "(function () { })", "(() => 1)()", "(x => x)(f(1))", "f.call(null, 1)", "f.apply(null, arr)", "f.bind(null)(1)", "thrower.call(null)", "f(thrower())", "f(1, thrower())",
+    "thrower(f(1))", "o.m(f(1), thrower())", "new F(thrower())", "arr.map(f)", "arr.forEach(thrower)", "arr.sort(function (x, y) { return x - y; })", "eval('1')", "eval('thrower()')",
+    # literals / members / operators
+    "[1, 2, 3]", "[1, , 3]", "[f(1), thrower()]", "({a: 1, b: f(2)})", "({a: thrower()})", "({[f('k')]: 1})", "({get x() { return 1; }})", "({m() { return 1; }})", "/re/g", "this",
+    "o.p", "o['q']['r']", "arr[arr.length - 1]", "s[0]", "s.length", "arr.length", "o.nosuch", "o.nosuch.deeper", "'p' in o", "f('p') in o", "1 in nul", "o instanceof F",
+    "new F(1) instanceof F", "a instanceof nul", "a + b", "a + s", "-a", "+s", "!a", "~a", "a < b", "a == b", "a === b", "a << b", "a ** b", "a % 0", "o + o", "o.q + thrower()",
+    "thrower() + o.q", "(a + b) * (a - b)", "arr + ''", "a > b > 0", "({}) + 1", "class K { m() { return 1; } }", "new (class { constructor() { this.x = 1; } })()", "new.target",
+    "arguments", "arguments.length", "async function () {}", "function* () {}", "a ? thrower : f", "(a ? thrower : f)()", "(a, f)(1)", "(0, o.m)(1)", "(o.m)(1)",
+]]
 
 
 def hash_small(x):
@@ -238,13 +310,13 @@ def main(ctx):
                 if b.get("needs_function") and not inf:
                     continue
                 bcases.append({"id": h([b["id"], n, inf]), "body": b["ident"], "N": n, "M": 20000, "in_function": inf,
-                               "src": loop_program(b, n, inf)})
+                               "src": loop_program(b, n, inf), "may_not_parse": b.get("may_not_parse", False)})
     # scaling tier: large N on a seed-chosen sample
-    sample = rng.sample(bodies, 40 if ctx.quick else 300) + [b for b in bodies if b["ident"][0] == "finally-override"]
+    sample = rng.sample(bodies, 40 if ctx.quick else 300) + [b for b in bodies if b["ident"][0].startswith("finally-override")]
     bigN = 1000 if ctx.quick else 30000
     for b in sample:
         bcases.append({"id": h([b["id"], bigN, True]), "body": b["ident"], "N": bigN, "M": 20000, "in_function": True,
-                       "src": loop_program(b, bigN, True), "max_steps": 40_000_000})
+                       "src": loop_program(b, bigN, True), "max_steps": 40_000_000, "may_not_parse": b.get("may_not_parse", False)})
     ep = engine_pool()
     try:
         rres = ep.map({"mod": "checks.C02", "fn": "w_recursion"}, rcases, batch=4, timeout=300, single_timeout=120)
@@ -275,6 +347,7 @@ def main(ctx):
                                          "monitor": "stop monitor: outcome class at the eval boundary"})
     evals = 0
     leaks = 0
+    unparsed = 0
     for c, r in zip(bcases, bres):
         ctx.count()
         if r is None or "_fail" in r or "_exc" in r:
@@ -284,6 +357,9 @@ def main(ctx):
         if r.get("marks_n", 0) >= 2:
             ctx.nontrivial(c["id"])
         prob = None
+        if r["out"] != "ok" and c.get("may_not_parse") and (r.get("err") or {}).get("cls") in ("JSSyntaxError", "SyntaxError") and r.get("marks_n", 0) == 0:
+            unparsed += 1      # an expression form outside this engine's grammar: nothing ran, nothing to judge
+            continue
         if r["out"] != "ok":
             cls = (r.get("err") or {}).get("cls")
             prob = "bounded-script-stopped:" + str(cls or r.get("abort") or r["out"])
@@ -317,6 +393,7 @@ def main(ctx):
     ctx.cov["max_host_recursion_depth_seen"] = maxhost
     ctx.cov["bounded_cases"] = len(bcases)
     ctx.cov["largest_N"] = bigN
+    ctx.cov["expression_forms_outside_engine_grammar_skipped"] = unparsed
     ctx.cov["vm_run_postcondition_evaluations"] = evals
     for c in (rcases[0], bcases[5], bcases[-1]):
         ctx.sample({k: c[k] for k in c if k != "id"})
